@@ -553,7 +553,7 @@ RULE = (
 def build(tier):
     return CheckSpec(
         [
-            Sub("histories", run_case, strategy=_case, budget={"quick": 1500, "thorough": 30000}, max_wall={"quick": 55, "thorough": 2400}),
+            Sub("histories", run_case, strategy=_case, budget={"quick": 1500, "thorough": 150000}, max_wall={"quick": 55, "thorough": 3600}),
             Sub("blockget", run_blockget, cases=cases_blockget, exhaustive=True),
             Sub("rewrite", run_rewrite, cases=cases_rewrite, exhaustive=True),
         ],
